@@ -61,6 +61,12 @@ def run(tier, v):
                 base = {"crate": crate, "matcher": True, "cfg": {"http": True, "tcp": True, "tls": True, "matcher": True}}
                 ana.append(dict(base, id="F|%d|%s|%s|%d" % k, frames=frames, filter=cfg))
                 ana.append(dict(base, id="U|%d|%s|%s|%d" % k, frames=sub, filter=None))
+                if crate != "uni" and (tier == "thorough" or ci % 4 == 1) and s["shape"].get("ihl", 5) == 5 and s["shape"]["vnib"] == s["shape"]["ver"]:
+                    # the parallel front end with the filter (for the TCP analyzer used twice: its pool is shut down after every capture
+                    # and must be initialised again) against the same front end without filter on the admitted sub-trace
+                    par = {"workers": 2, "queue": 64, "batch": 2, "timeout_ms": 5}
+                    ana.append(dict(base, id="G|%d|%s|%s|%d" % k, crate=crate + "_par", frames=frames, filter=cfg, parallel=par, repeat=2 if crate == "tcp" else 1))
+                    ana.append(dict(base, id="H|%d|%s|%s|%d" % k, crate=crate + "_par", frames=sub, filter=None, parallel=par))
                 if crate != "uni" and (tier == "thorough" or ci % 4 == 0):
                     for nw in (1, 3):
                         pool.append({"id": "P%d|%d|%s|%s|%d" % ((nw,) + k), "crate": crate, "workers": nw, "queue": 64, "batch": 2, "timeout_ms": 5, "dispatchers": [frames], "filter": cfg,
@@ -82,7 +88,7 @@ def run(tier, v):
         if "panic" in o:
             v.violation(dict(meta[k], observed="panic: " + o["panic"], run="filtered" if kind == "F" else "unfiltered"))
             continue
-        res[(kind,) + k] = nonempty(crate, o["results"])
+        res[(kind,) + k] = nonempty(crate, o["results"]) if kind in ("F", "U") else sorted(nonempty(crate, o["results"]))
     preq = os.path.join(wd, "pool.req")
     vlib.write_ndjson(preq, pool)
     pout = os.path.join(wd, "pool.out")
@@ -107,14 +113,18 @@ def run(tier, v):
         want = res.get(("U",) + k)
         if want is None:
             continue
-        for kind in ("F", "P1", "P3"):
+        for kind in ("F", "P1", "P3", "G"):
             got = res.get((kind,) + k)
             if got is None:
                 continue
             n += 1
             n_nontriv += bool(want) or bool(got)
             w = want
-            if kind != "F":
+            if kind == "G":
+                w = res.get(("H",) + k)
+                if w is None:
+                    continue
+            elif kind != "F":
                 w = res.get(("Q" + kind[1:],) + k)      # same pool, no filter, admitted sub-trace
                 if w is None:
                     continue
@@ -126,7 +136,7 @@ def run(tier, v):
                 for d in m["class"]:
                     v.known_hit(d, WHAT[d])
                 continue
-            v.violation({"shape": m["shape"], "analyzer": m["analyzer"], "path": {"F": "analyze_pcap", "P1": "worker pool (1 worker)", "P3": "worker pool (3 workers)"}[kind], "trace": m["trace"],
+            v.violation({"shape": m["shape"], "analyzer": m["analyzer"], "path": {"F": "analyze_pcap", "P1": "worker pool (1 worker)", "P3": "worker pool (3 workers)", "G": "parallel front end (with_config + init_pool + analyze_pcap; the TCP analyzer used for a second capture)"}[kind], "trace": m["trace"],
                          "filter": m["filter"], "frames": m["frames"], "admitted_subtrace": m["admitted_subtrace"], "results_with_filter": got, "results_without_filter_on_admitted_subtrace": w,
                          "input_class_of_recorded_deviation": m["class"]})
     return v.finish("model_checking", {
